@@ -268,6 +268,13 @@ def _algebra(spec):
                 probs.append("is_subtile(child,parent) false for %s" % (c,))
         if not is_subtile(P, P):
             probs.append("is_subtile(p,p) false")
+        # the returned list belongs to the caller (explicit-stack traversals pop from it): using it up must not change later answers
+        if isinstance(ch, list):
+            while ch:
+                ch.pop()
+            again = pos_children(P)
+            if [tuple(c) for c in again] != exp:
+                probs.append("children of %s after the caller consumed an earlier result: %s" % (p, again))
 
     for d in range(0, spec["exh"] + 1):
         for p in rq.all_positions(d, d):
@@ -294,6 +301,17 @@ def _algebra(spec):
         if got != (anc(p, k) == b):
             probs.append("is_subtile(%s,%s)=%s" % (p, b, got))
         n += 1
+    # ... and enumeration through the same positions afterwards is still complete
+    from toasty.pyramid import Pyramid, generate_pos
+
+    for d in (1, 2, 3):
+        got = sorted((q.n, q.x, q.y) for q in generate_pos(d))
+        if got != sorted(rq.all_positions(d)):
+            probs.append("generate_pos(%d) after the algebra queries yields %d positions, expected %d" % (d, len(got), len(rq.all_positions(d))))
+        seen = []
+        Pyramid.new_generic(d).visit_leaves(lambda pos, tile: seen.append((pos.n, pos.x, pos.y)), parallel=1)
+        if sorted(seen) != sorted(rq.all_positions(d, d)):
+            probs.append("leaf visit of new_generic(%d) after the algebra queries: %d leaves, expected %d" % (d, len(seen), 4 ** d))
     r = dict(counters=dict(algebra_checks=n), nontrivial=True)
     if probs:
         r.update(status="violation", key="position-algebra", detail="; ".join(probs[:5]))
